@@ -4,7 +4,7 @@
    anything of a previous incarnation is in flight).                                                   *)
 From Coq Require Import List NArith Ascii Bool Lia Arith.
 From SV Require Import Lib.Bytes Lib.DgramLib Model.Chan Proofs.Chan_lemmas Model.Dgram Proofs.Dgram_lemmas
-  Proofs.DgramServer_lemmas Gen.Consts.
+  Model.DgramSys Proofs.DgramServer_lemmas Gen.Consts.
 Import ListNotations.
 Local Open Scope N_scope.
 
@@ -69,7 +69,7 @@ Section Tags.
   Proof.
     destruct f as [[[ch cmd] data] tag]. unfold frame_tags, f_cmd, f_ch, f_tag. cbn [fst snd].
     intros T Hp E. unfold s_frame in E.
-    assert (Hreq : forall c, udp_req ch c data s io = Ok (s', io', o) -> s_tags s' /\ Forall out_tags o).
+    assert (Hreq : forall c, udp_req fx ch c data s io = Ok (s', io', o) -> s_tags s' /\ Forall out_tags o).
     { intros c Er. unfold udp_req in Er. destruct c; try (inversion Er; subst; split; [exact T|constructor]).
       - destruct (split3 data) as [[[a p] d]|]; [|discriminate]. destruct (undec p); [|discriminate].
         destruct (alookup N.eqb ch (s_udph s)); [|discriminate].
@@ -166,8 +166,6 @@ End Tags.
 
 (* ------------------------------------------------------------------ *)
 (* client: what an accept event does to the DNS entries of mux.channels *)
-
-Definition is_accept (e : cevent) : bool := match e with EFrame _ _ _ => false | _ => true end.
 
 Lemma in_closes now c x : In x (closes now c) -> exists ch, x = OFrame ch CMD_UDP_CLOSE [].
 Proof. intros H. apply in_map_iff in H. destruct H as [p [<- _]]. eexists. reflexivity. Qed.
@@ -305,71 +303,6 @@ Qed.
 (* ------------------------------------------------------------------ *)
 (* the two-ended system                                                *)
 
-Definition fcmd_of (cmd : N) : fcmd :=
-  if cmd =? CMD_DNS_REQ then FDnsReq else if cmd =? CMD_UDP_OPEN then FUdpOpen
-  else if cmd =? CMD_UDP_DATA then FUdpData else if cmd =? CMD_UDP_CLOSE then FUdpClose else FOther.
-
-(* what a client output puts on the client->server link; q = ghost number of the query being accepted *)
-Definition up_of (q : N) (o : cout) : list frame :=
-  match o with OFrame ch cmd data => [(ch, fcmd_of cmd, data, q)] | ODgram _ _ _ _ => [] end.
-
-(* what a server output puts on the server->client link: (identifier, payload, ghost tag of the query whose
-   DnsProxy produced it — None for frames that answer no query) *)
-Definition down_of (o : sout) : list (N * bytes * option N) :=
-  match o with
-  | SFrame ch cmd data tag => [(ch, data, if cmd =? CMD_DNS_RESPONSE then Some tag else None)]
-  | _ => []
-  end.
-
-Record sys := {
-  y_c : cstate; y_s : sstate;
-  y_up : list frame;                        (* client -> server, FIFO *)
-  y_down : list (N * bytes * option N)      (* server -> client, FIFO *)
-}.
-
-Definition y_init : sys := {| y_c := c_init; y_s := s_init; y_up := []; y_down := [] |}.
-
-Inductive yev :=
-| YAccept (e : cevent)                                          (* listener event at the client: EDns / EUdp / ETcp *)
-| YServer (now : N) (k : nat) (ready : list N) (io : list io_item)  (* a server iteration reading the first k frames *)
-| YDeliver (sr : sendres).                                      (* the client handles the next frame from the server *)
-
-Inductive yobs :=
-| ObsClient (tag : option N) (o : list cout)     (* tag: ghost tag of the frame being handled (accept events: None) *)
-| ObsServer (o : list sout).
-
-Definition ystep (cc : ccfg) (sc : scfg) (y : sys) (e : yev) : option (sys * yobs) :=
-  match e with
-  | YAccept ce =>
-    if is_accept ce then
-      match cstep all_fixed cc (y_c y) ce with
-      | Ok (c', o) =>
-        Some ({| y_c := c'; y_s := y_s y; y_up := y_up y ++ flat_map (up_of (c_nq (y_c y))) o; y_down := y_down y |},
-              ObsClient None o)
-      | _ => None
-      end
-    else None
-  | YServer now k ready io =>
-    match sstep all_fixed sc (y_s y)
-            {| se_now := now; se_frames := firstn k (y_up y); se_ready := ready; se_io := io |} with
-    | Ok (s', o) =>
-      Some ({| y_c := y_c y; y_s := s'; y_up := skipn k (y_up y); y_down := y_down y ++ flat_map down_of o |},
-            ObsServer o)
-    | _ => None
-    end
-  | YDeliver sr =>
-    match y_down y with
-    | [] => None
-    | (ch, data, tag) :: tl =>
-      match cstep all_fixed cc (y_c y) (EFrame ch data sr) with
-      | Ok (c', o) =>
-        Some ({| y_c := c'; y_s := y_s y; y_up := y_up y ++ flat_map (up_of (c_nq (y_c y))) o; y_down := tl |},
-              ObsClient tag o)
-      | _ => None
-      end
-    end
-  end.
-
 (* something of identifier ch's DNS life is still on its way: a DNS_REQ on the up link, a DnsProxy on the
    server (pending, or aliased and never expired), a DNS_RESPONSE on the down link *)
 Definition in_flight (ch : N) (y : sys) : Prop :=
@@ -457,7 +390,7 @@ Section SystemProof.
     | _ => True
     end.
   Proof.
-    intros Y He E Ha. destruct e as [ce|now k ready io|sr]; cbn [ystep] in E.
+    intros Y He E Ha. destruct e as [ce|now k ready io|sr]; unfold ystep in E; cbn [ystep_fx] in E.
     - (* a listener event at the client *)
       destruct (is_accept ce) eqn:Eacc; [|discriminate].
       destruct (cstep all_fixed cc (y_c y) ce) as [[c' o]| |] eqn:Ec; try discriminate.
@@ -722,7 +655,7 @@ Section SystemDns.
       destruct ce as [now src dst payload| | |]; try contradiction. clear He.
       destruct (cstep_ok cc (y_c y) (EDns now src dst payload) Hcfg (di_c _ D) Logic.I) as (c1 & o1 & E1 & _).
       split; [intros x Hx; cbn [raises] in Hx; rewrite E1 in Hx; discriminate|].
-      intros y' ob E. cbn [ystep is_accept] in E. rewrite E1 in E. inversion E; subst y' ob; clear E.
+      intros y' ob E. unfold ystep in E; cbn [ystep_fx is_accept] in E. rewrite E1 in E. inversion E; subst y' ob; clear E.
       cbn [cstep] in E1.
       destruct (ondns_dns_only cc now src dst payload (y_c y) c1 o1 (proj1 Hcfg) (di_c _ D) (di_udp _ D) (di_k _ D) E1)
         as (I1 & U1 & K1 & Ho).
@@ -737,7 +670,7 @@ Section SystemDns.
       assert (Hw : Forall chan16 (firstn k (y_up y))) by (revert HF; apply Forall_impl; tauto).
       pose proof (sstep_inv sc (y_s y) {| se_now := now; se_frames := firstn k (y_up y); se_ready := ready; se_io := io |}
                     (di_s _ D) Hw) as R.
-      cbn [raises ystep].
+      unfold ystep; cbn [raises ystep_fx].
       destruct (sstep all_fixed sc (y_s y) _) as [[s' o]| |x0].
       + split; [intros x Hx; discriminate|]. intros y' ob E. inversion E; subst y' ob; clear E.
         destruct R as (I' & Hc & Ho). cbn [se_frames] in Hc, Ho.
@@ -755,7 +688,7 @@ Section SystemDns.
         * apply A. revert Hd. apply Forall_impl. intros f Hf. unfold body_ok. rewrite Hf. exact Logic.I.
         * apply A. revert Hd. apply Forall_impl. intros f Hf Hc. rewrite Hf in Hc. discriminate.
     - (* the client handles a frame *)
-      cbn [raises ystep]. destruct (y_down y) as [|[[ch data] tag] tl]; [split; [intros x []|intros y' ob E; discriminate]|].
+      unfold ystep; cbn [raises ystep_fx]. destruct (y_down y) as [|[[ch data] tag] tl]; [split; [intros x []|intros y' ob E; discriminate]|].
       cbn [cstep].
       destruct (got_packet_dns_only cc ch data sr (y_c y) (di_c _ D) (di_udp _ D) (di_k _ D)) as (c1 & o1 & E1 & I1 & U1 & K1 & Ho).
       rewrite E1. split; [intros x Hx; discriminate|]. intros y' ob E. inversion E; subst y' ob; clear E.
